@@ -77,6 +77,7 @@ type C13 struct {
 	curGroup  uint64
 	bySid     map[uint64]*paidSigning // tss signing id -> record
 	reqOrder  []*reqMeta              // accepted oracle requests by id-1
+	resultSigned map[uint64]uint64    // request id -> bandtss signing of its result
 	escrow    string
 	nUnderByOne, nPayout, nPayoutAfterRetry, nReqPaid, nSigPaid, nRejectedFee, nFallenUnpaid int
 	WithTSS   bool
@@ -127,7 +128,7 @@ func (m *C13) dataRequestCost(msg *oracletypes.MsgRequestData) (sdk.Coins, map[s
 		}
 	case scriptSimple:
 		ids = []int64{1, 2, 3}
-	case scriptNoRet, scriptTrap:
+	case scriptNoRet, scriptTrap, scriptEmpty:
 		ids = []int64{1}
 	}
 	cost := sdk.NewCoins()
@@ -264,6 +265,15 @@ func (m *C13) OnBlock(e *Env, blk *world.BlockRecord) {
 				continue
 			}
 			payer := m.reqOrder[rid-1].Msg.Sender
+			// one data request pays for at most one signature of its result
+			if m.resultSigned == nil {
+				m.resultSigned = map[uint64]uint64{}
+			}
+			if prev, dup := m.resultSigned[rid]; dup {
+				e.Fail("C13", "result_signing_charged_twice", "", "data request %d: a second signing (%d, after %d) of its result was created and charged to %s", rid, bid, prev, payer)
+				return
+			}
+			m.resultSigned[rid] = bid
 			bs, err := e.App().BandtssKeeper.GetSigning(ctx, bandtsstypes.SigningID(bid))
 			if err != nil {
 				continue
@@ -275,6 +285,12 @@ func (m *C13) OnBlock(e *Env, blk *world.BlockRecord) {
 			cost := mulCoins(bs.FeePerSigner, thr)
 			if !bs.FeePerSigner.Equal(m.bparams.FeePerSigner) && !bs.FeePerSigner.Equal(bparamsAfter.FeePerSigner) {
 				e.Fail("C13", "signing_fee_recorded", "", "bandtss signing %d records fee per signer %s; parameter is %s", bid, bs.FeePerSigner, m.bparams.FeePerSigner)
+				return
+			}
+			// data-source fees plus the signing fee stay within the request's fee limit
+			dataCost, _ := m.dataRequestCost(m.reqOrder[rid-1].Msg)
+			if exceeds(dataCost.Add(cost...), m.reqOrder[rid-1].Msg.FeeLimit) {
+				e.Fail("C13", "request_total_exceeds_limit", "", "data request %d: data-source fees %s plus signing fee %s exceed its fee limit %s", rid, dataCost, cost, m.reqOrder[rid-1].Msg.FeeLimit)
 				return
 			}
 			m.L.Move(payer, m.escrow, cost)
